@@ -44,6 +44,7 @@ class FakeTransport(Transport):
         self.lines: list[str] = []
         self.writes: list[dict] = []
         self.fail_if = None  # callable(parsed write) -> bool
+        self.slow_gate = None  # a future: writes wait for it (a peer that stopped reading for a long time)
         self.gateway: Gateway | None = None
         self.connected = 0
         self.disconnected = 0
@@ -67,6 +68,8 @@ class FakeTransport(Transport):
         self.writes.append(rec)
         if fail:
             raise InjectedFault("injected write fault")
+        if self.slow_gate is not None:
+            await self.slow_gate
 
 
 _LINE = re.compile(r"\A(-?\d+);(-?\d+);(-?\d+);(-?\d+);(-?\d+);([^\n]*)\n\Z")
@@ -334,6 +337,9 @@ class Run:
         if init.get("ver", "none") != "none":
             self.gateway.protocol_version = init["ver"]
         self.gen = None
+        self._skew = 0.0
+        real_clock = self.loop.time
+        self.loop.time = lambda: real_clock() + self._skew      # the loop's clock can be moved forward
         self.init = {"metric": init.get("metric", True)}
         self.events: list[dict] = []
 
@@ -359,6 +365,20 @@ class Run:
             self.loop.run_until_complete(asyncio.sleep(0))
             if task.done():
                 break
+        gate = getattr(self.transport, "slow_gate", None)
+        if gate is not None:
+            # the peer does not take the line for an hour (of the loop's clock), then it does: slow is not failed
+            if not task.done():
+                self._skew += 3600.0
+                for _ in range(30):
+                    self.loop.run_until_complete(asyncio.sleep(0))
+            if not gate.done():
+                gate.set_result(None)
+            self.transport.slow_gate = None
+            for _ in range(200):
+                if task.done():
+                    break
+                self.loop.run_until_complete(asyncio.sleep(0))
         if not task.done():
             task.cancel()
             try:
@@ -385,6 +405,7 @@ class Run:
         if self.stream is None and self.mqtt is None:
             tr.writes = []
             tr.fail_if = fault_selector(ev)
+            tr.slow_gate = self.loop.create_future() if ev.get("slow") else None
         t0 = time.time()
         kind = ev["k"]
         if kind in ("recv", "recvbad", "recvundec", "recvlong") and self.stream is not None:
